@@ -1,8 +1,8 @@
 #!/bin/sh
-# seed_ingest.sh <ID> [names...]: confirm the changes a seeding agent left under /tmp/seed2/<ID>/out/<name>/, store the confirmed ones
+# seed_ingest.sh <ID> [names...]: confirm the changes a seeding agent left under ${SEEDROOT:-/tmp/seed2}/<ID>/out/<name>/, store the confirmed ones
 # under seeded/<ID>-<name>/, run them against the property's check, and remove the agent's scratch worktree
 ID="$1"; shift; NAMES="${*:-c d}"
-for x in $NAMES; do [ -f /tmp/seed2/$ID/out/$x/patch.diff ] && /verif/harness/confirm_seed.sh /tmp/seed2/$ID/out/$x $ID $x; done
+for x in $NAMES; do [ -f ${SEEDROOT:-/tmp/seed2}/$ID/out/$x/patch.diff ] && /verif/harness/confirm_seed.sh ${SEEDROOT:-/tmp/seed2}/$ID/out/$x $ID $x; done
 for x in $NAMES; do [ -d /verif/seeded/$ID-$x ] && /verif/harness/run_seed.sh $ID-$x $ID; done
-[ -d /tmp/seed2/$ID/repo ] && git -C /repo worktree remove --force /tmp/seed2/$ID/repo
+[ -d ${SEEDROOT:-/tmp/seed2}/$ID/repo ] && git -C /repo worktree remove --force ${SEEDROOT:-/tmp/seed2}/$ID/repo
 exit 0
